@@ -12,7 +12,7 @@ def configs(tier):
     out = []
     specs = [([3], 0, [], "combos", "none", 1), ([2, 2], 0, [], "combos", "size", 3), ([5], 0, [], "combos", "count", 2),
              ([7], 0, [], "combos", "count", 4), ([], 1, [[2], [1], [3], [4]], "cases", "size", 1), ([1], 0, [], "combos", "none", 1),
-             ([2], 1, [[1], [3]], "combos", "count", 3)]
+             ([2], 1, [[1], [3]], "combos", "count", 3), ([12], 0, [], "combos", "none", 1), ([23], 0, [], "combos", "size", 2)]
     if tier == "thorough":
         specs += [([8], 0, [], "combos", "none", 1), ([4, 3], 0, [], "combos", "count", 8), ([3, 3], 0, [], "combos", "size", 2),
                   ([], 2, [[1, 1], [1, 2], [2, 1], [2, 2], [3, 1], [3, 2]], "cases", "count", 6)]
@@ -60,7 +60,9 @@ def run(rep):
     # crops of up to 4 batches: all reachable states are model-checked; larger crops (up to 8 batches): simulated histories only
     runs = [dict(name="C08_hist", configs=small, acts=acts, max_steps=8 if q else 12, mode="sim", num=1500 if q else 12000, need=need)]
     if big:
-        runs.append(dict(name="C08_big", configs=big, acts=acts, max_steps=8 if q else 12, mode="sim", num=300 if q else 4000, check=False))
+        # (no grow-subset here: 2^B successor states per step would all be enumerated by the simulator)
+        runs.append(dict(name="C08_big", configs=big, acts=[a for a in acts if a != "grow_set"], max_steps=8 if q else 12, mode="sim",
+                         num=150 if q else 3000, check=False, sample=400 if q else 9000))
     crop.drive(rep, runs, claims=lambda tag: tag.startswith(CLAIMS_PREFIX))
     # "at every moment": progress queries interleaved with growers at the level of file operations (CropFS.tla)
     from .. import cropfs
